@@ -1,0 +1,30 @@
+//go:build verif
+
+// Contracts for package surveyor (comment-only; read by /verif/govc).
+
+package surveyor
+
+//@ struct pipe
+//@   immutable: s p closeQ sendQ
+//@
+//@ struct context
+//@   guarded_by s.Mutex: closed recvQLen recvExpire survExpire surv
+//@   immutable: s closeQ
+//@
+//@ struct socket
+//@   lock Mutex level 20
+//@   guarded_by Mutex: ctxs surveys pipes closed sendQLen
+//@   immutable: master
+//@   atomic: nextID
+//@
+//@ struct survey
+//@   guarded_by sock.Mutex: timer active
+//@   immutable: recvQ id ctx sock
+//@   nullable: timer
+//@
+//@ func (*context).close
+//@   holds c.s.Mutex
+//@
+//@ func (*survey).start
+//@   holds s.sock.Mutex
+//@   private
